@@ -556,6 +556,7 @@ class MultipartDownloader:
                 filename,
                 object_size,
                 callback,
+                extra_args,
             )
             parts_future = controller.submit(download_parts_handler)
 
@@ -575,7 +576,7 @@ class MultipartDownloader:
             future.result()
 
     def _download_file_as_future(
-        self, bucket, key, filename, object_size, callback
+        self, bucket, key, filename, object_size, callback, extra_args=None
     ):
         part_size = self._config.multipart_chunksize
         num_parts = int(math.ceil(object_size / float(part_size)))
@@ -588,6 +589,7 @@ class MultipartDownloader:
             part_size,
             num_parts,
             callback,
+            extra_args=extra_args,
         )
         try:
             with self._executor_cls(max_workers=max_workers) as executor:
@@ -605,8 +607,18 @@ class MultipartDownloader:
         return range_param
 
     def _download_range(
-        self, bucket, key, filename, part_size, num_parts, callback, part_index
+        self,
+        bucket,
+        key,
+        filename,
+        part_size,
+        num_parts,
+        callback,
+        part_index,
+        extra_args=None,
     ):
+        if extra_args is None:
+            extra_args = {}
         try:
             range_param = self._calculate_range_param(
                 part_size, part_index, num_parts
@@ -618,7 +630,7 @@ class MultipartDownloader:
                 try:
                     logger.debug("Making get_object call.")
                     response = self._client.get_object(
-                        Bucket=bucket, Key=key, Range=range_param
+                        Bucket=bucket, Key=key, Range=range_param, **extra_args
                     )
                     streaming_body = StreamReaderProgress(
                         response['Body'], callback
